@@ -9,3 +9,7 @@ open GrVerif.Props.C04
 #print axioms frame_meaning
 #print axioms attach_guard
 #print axioms attach_refuses
+#print axioms every_opcode_keeps_forest
+#print axioms action_keeps_forest
+#print axioms pipeline_forest
+#print axioms forest_for_clients
